@@ -156,7 +156,9 @@ GEN = {
     'gen-dbus': 'abi <abi/4.0>,\n\ninclude <tunables/global>\n\n@{exec_path} = @{bin}/gen-dbus\nprofile gen-dbus @{exec_path} {\n  include <abstractions/base>\n\n  #aa:dbus own bus=session name=org.gen.Test\n\n  @{exec_path} mr,\n\n  profile sub {\n    #aa:dbus talk bus=system name=org.gen.Peer label=gen-t1\n  }\n\n  include if exists <local/gen-dbus>\n}\n',
     'gen-none': 'abi <abi/4.0>,\n\ninclude <tunables/global>\n\n@{exec_path} = @{bin}/gen-none\nprofile gen-none @{exec_path} flags=(complain) {\n  include <abstractions/base>\n\n  @{exec_path} mr,\n  @{bin}/x rPUx,\n\n  include if exists <local/gen-none>\n}\n',
 }
-GEN_HOSTS = ['gen-stack1', 'gen-stack2', 'gen-stackx', 'gen-exec2', 'gen-dbus', 'gen-none']
+GEN['gen-append'] = 'abi <abi/4.0>,\n\ninclude <tunables/global>\n\n@{lib} += /opt/vendor/lib\n@{bin} += /opt/vendor/bin\n@{exec_path} = @{lib}/gen-append @{bin}/gen-append\nprofile gen-append @{exec_path} {\n  include <abstractions/base>\n\n  @{exec_path} mr,\n\n  include if exists <local/gen-append>\n}\n'
+GEN['gen-uselib'] = 'abi <abi/4.0>,\n\ninclude <tunables/global>\n\n@{exec_path} = @{lib}/gen-uselib @{bin}/gen-uselib\nprofile gen-uselib @{exec_path} {\n  include <abstractions/base>\n\n  @{exec_path} mr,\n\n  #aa:exec gen-append\n\n  include if exists <local/gen-uselib>\n}\n'
+GEN_HOSTS = ['gen-append', 'gen-uselib', 'gen-stack1', 'gen-stack2', 'gen-stackx', 'gen-exec2', 'gen-dbus', 'gen-none']
 STEP_RE = re.compile(r'^STEP (\d+) (\S+) sha=(\w+) globals=(\S*) err=(.*)$', re.M)
 
 
